@@ -4,7 +4,7 @@
    Granularity: one step = one atomic access, or one block executed under a mutex (the block's mutex is named).
    [same_mutex] selects the protocol: false = the propagator holds only my_threads_list_mutex while the
    binder's fall-back takes the_context_state_propagation_mutex (the code as found); true = the propagator also
-   holds the_context_state_propagation_mutex (the repaired code). *)
+   holds the_context_state_propagation_mutex (the repaired code).  A second switch, [raise_only], selects the repair of the second defect (below). *)
 From OTV Require Import Lib.Tac Lib.Conc.
 Local Open Scope Z_scope.
 
@@ -28,6 +28,9 @@ Fixpoint setl {A} (l : list A) (i : nat) (v : A) : list A :=
 
 Section Scenario.
 Variable same_mutex : bool.
+(* [raise_only]: in the branch for a parent without a parent (bind_to_impl's else branch) the parent's flag is copied only when it is set
+   (the repaired code); false = the unconditional load-then-store as found, which can overwrite a flag the propagation has just set *)
+Variable raise_only : bool.
 Variable infos : list ctxinfo.
 Definition parent (c : Z) : Z := ci_parent (nth (Z.to_nat c) infos (mkci (-1) 0)).
 Definition list_of (c : Z) : Z := ci_list (nth (Z.to_nat c) infos (mkci (-1) 0)).
@@ -124,7 +127,7 @@ Definition cstep (tid : nat) (g : shared) (l : loc) : option (shared * loc * lis
       Some (mkG (g_cancel g) (g_mhc g) (setl (g_reg g) (Z.to_nat c) true) (g_lepoch g) (g_epoch g) (g_tl_mutex g) (g_b_mutex g),
             goto (BRootLoad c), [])
   | BRootLoad c => Some (g, goto (BRootStore c (getz (g_cancel g) (parent c))), [])
-  | BRootStore c v => Some (set_cancel g c v, next_op l, [])
+  | BRootStore c v => Some ((if raise_only && negb (v =? 1) then g else set_cancel g c v), next_op l, [])
   end.
 
 (* initial state: contexts listed in [pre] are already bound/registered (with may_have_children of their parents set) *)
@@ -149,11 +152,11 @@ Definition no_spurious_ok (g : shared) (won : list Z) : bool :=
 End Scenario.
 
 (* run a schedule, then complete round-robin; returns (quiescent?, reaches_ok, no_spurious_ok) *)
-Definition run_ctx (same_mutex : bool) (infos : list ctxinfo) (pre : list Z) (progs : list (list Z)) (sched : list nat)
+Definition run_ctx (same_mutex raise_only : bool) (infos : list ctxinfo) (pre : list Z) (progs : list (list Z)) (sched : list nat)
   : bool * bool * bool :=
   let c0 := (init_shared infos pre, map (fun p => mkL CDone p []) progs) in
-  let '(c1, _) := run (cstep same_mutex infos) c0 sched in
-  let '(c2, _, ok) := finish (cstep same_mutex infos) 400 c1 400 in
+  let '(c1, _) := run (cstep same_mutex raise_only infos) c0 sched in
+  let '(c2, _, ok) := finish (cstep same_mutex raise_only infos) 400 c1 400 in
   let won := flat_map l_won (snd c2) in
   (ok, reaches_ok infos (fst c2) won, no_spurious_ok infos (fst c2) won).
 
